@@ -90,7 +90,7 @@ class ModelEngine(Engine):
     expected_probes = ['read_in_other_epoch', 'xml_read', 'json_read', 'dm_read', 'path_read', 'stream_read', 'short_read_stream',
                        'scaled_property', 'symbols_with_gap', 'masses_partly_none', 'one_atom_system', 'length1_array',
                        'rank3_value', 'rewrite_chain', 'elastic_normalised', 'unseeded_epoch', 'string_property', 'error_field',
-                       'noncontiguous_input', 'box_read_into_used_object']
+                       'noncontiguous_input', 'box_read_into_used_object', 'io_error_read_raised']
     rule = ('Each run is a history of up to 30 operations over a set of up to 10 serialised artifacts: build a value-with-units / '
             'Box / Atoms / System / ElasticConstants in the current epoch from simulator-held physical (SI, dimension) values and '
             'write it (arrays handed over C-ordered, Fortran-ordered, transposed or as strided views; uc.model, .model(), dump("system_model"), JSON or XML text with any indent, returned / to path / to stream); '
@@ -180,6 +180,8 @@ class ModelEngine(Engine):
             src = 'bytesio'
         op = {'op': k, 'a': r.randrange(len(st['arts'])), 'src': src, 'chunks': [r.choice([1, 2, 3, 7, 16, 64, 1000]) for _ in range(4)],
               'bufsize': r.choice([1, 8, 16, 4096]), 'via': r.choice(['ctor', 'method', 'load']), 'recycled': r.random() < 0.5}
+        if src in ('chunked', 'buffered') and r.random() < 0.2:
+            op['ioerr'] = {'u': r.random(), 'once': r.random() < 0.3}
         if k == 'rewrite':
             op['enc'] = r.choice(['json', 'xml'])
             op['indent'] = r.choice([None, 1, 4])
@@ -351,13 +353,22 @@ class ModelEngine(Engine):
 
     def _source(self, ctx, st, art, op):
         """What the reader is handed for this artifact."""
+        st['last_raw'] = None
         if art['payload']['enc'] == 'dm':
             ctx.probe('dm_read')
             return art['payload']['dm'], (lambda: None), 'dm'
         src = op['src'] if op['src'] != 'dm' else 'text'
         st['nfile'] += 1
         name = 'r%d.%s' % (st['nfile'], art['payload']['enc'])
-        obj, closer, raw = streams.make_source(src, art['payload']['text'], st['scratch'], name, op['chunks'], op['bufsize'])
+        fail_at = None
+        io = op.get('ioerr')
+        if io and src in ('chunked', 'buffered'):
+            nb = len(art['payload']['text'].encode('utf-8'))
+            if nb:
+                fail_at = min(nb - 1, int(io['u'] * nb))
+        obj, closer, raw = streams.make_source(src, art['payload']['text'], st['scratch'], name, op['chunks'], op['bufsize'],
+                                               fail_at=fail_at, fail_once=bool(io and io.get('once')))
+        st['last_raw'] = raw
         ctx.probe(art['payload']['enc'] + '_read')
         if src == 'path':
             ctx.probe('path_read')
@@ -643,8 +654,21 @@ class ModelEngine(Engine):
                 else:
                     e = ctx.must('C10.J6', am.ElasticConstants, model=src_obj, klass='ElasticConstants(model)/' + klass)
                 obj = {'_obj': e, 'Cij': np.asarray(e.Cij)}
+        except Violation as v:
+            # a read may fail on a disk error under the reader; it may never return wrong content
+            raw = st.get('last_raw')
+            if raw is not None and getattr(raw, 'io_errors', 0) > 0 and 'exception' in v.detail:
+                ctx.fault('io_error_under_reader')
+                ctx.probe('io_error_read_raised')
+                ctx.ev('op', 'read-failed', {'what': what, 'src': src})
+                return None
+            raise
         finally:
             closer()
+        raw = st.get('last_raw')
+        if raw is not None and getattr(raw, 'io_errors', 0) > 0:
+            ctx.fault('io_error_under_reader')
+            ctx.probe('io_error_read_completed')
         self._compare(ctx, st, t, obj, changed, klass)
         shape_class = ''
         if what == 'value':
